@@ -516,3 +516,45 @@ def head_reads_in_descent(fn_node: ast.AST) -> List[Tuple[ast.While, ast.AST, st
             if reads_head and cur not in names:
                 out.append((w, st, ast.unparse(st)))
     return out
+
+
+def _simple_assigns(st: ast.stmt) -> List[Tuple[str, ast.AST]]:
+    """(name, value) pairs of `a = e` and of element-wise tuple assignments `a, b = e1, e2`"""
+    out = []
+    if isinstance(st, ast.Assign) and len(st.targets) == 1:
+        t, v = st.targets[0], st.value
+        if isinstance(t, ast.Name):
+            out.append((t.id, v))
+        elif isinstance(t, (ast.Tuple, ast.List)) and isinstance(v, (ast.Tuple, ast.List)) and len(t.elts) == len(v.elts):
+            for a, b in zip(t.elts, v.elts):
+                if isinstance(a, ast.Name):
+                    out.append((a.id, b))
+    return out
+
+
+def overwrites_in_descent(fn_node: ast.AST) -> List[Tuple[ast.While, ast.stmt, str]]:
+    """`n = 1; while ...: n = c.f; c = c.a` ... `n * x`: a loop that walks down a chain and is meant to accumulate a size over
+    the levels (the accumulator starts at the neutral element 1 / 0 and is used in arithmetic afterwards) but REPLACES it at
+    every level: only the innermost level counts"""
+    out = []
+    body = getattr(fn_node, "body", [])
+    for w in ast.walk(fn_node):
+        if not isinstance(w, ast.While):
+            continue
+        asg = [(n, v, st) for st in w.body for n, v in _simple_assigns(st)]
+        steps = {n: v.attr for n, v, st in asg if isinstance(v, ast.Attribute) and isinstance(v.value, ast.Name) and v.value.id == n}
+        if len(steps) != 1:
+            continue
+        cur = next(iter(steps))
+        for n, v, st in asg:
+            if n == cur:
+                continue
+            if not (isinstance(v, ast.Attribute) and isinstance(v.value, ast.Name) and v.value.id == cur):
+                continue
+            # neutral initialisation before the loop, arithmetic use somewhere outside the loop
+            inits = [x for x in ast.walk(fn_node) if isinstance(x, ast.Assign) and any(isinstance(t, ast.Name) and t.id == n for t in x.targets) and isinstance(x.value, ast.Constant) and x.value.value in (0, 1) and not any(x is y for y in ast.walk(w))]
+            inside = {id(y) for y in ast.walk(w)}
+            arith = [x for x in ast.walk(fn_node) if isinstance(x, ast.BinOp) and isinstance(x.op, (ast.Mult, ast.Add)) and id(x) not in inside and any(isinstance(y, ast.Name) and y.id == n for y in (x.left, x.right))]
+            if inits and arith:
+                out.append((w, st, ast.unparse(st)))
+    return out
